@@ -18,7 +18,7 @@ func init() { engines["ctxboost-cli"] = engineCtxBoostCLI }
 // boosted words keeps its score.
 func engineCtxBoostCLI(ctx *Ctx) {
 	r := vlib.NewRand(ctx.Seed, ctx.Shard, "ctxboost-cli")
-	n := ctx.N(48, 480)
+	n := ctx.N(48, 1600)
 	for i := 0; i < n; i++ {
 		base := filepath.Join(ctx.Scratch, fmt.Sprintf("cb%d", i))
 		h := NewHome(base)
